@@ -433,8 +433,14 @@ def add_signs_lights(draw, net, ids, profile=None, country="DEU"):
                 sl["signs"] = draw(st.lists(st.sampled_from(pool_s), min_size=1, unique=True))
             if pool_l and draw(st.booleans()):
                 sl["lights"] = draw(st.lists(st.sampled_from(pool_l), min_size=1, unique=True))
-            if draw(st.booleans()):
+            where = draw(st.integers(0, 3))
+            if where <= 1:
                 sl["start"], sl["end"] = draw(point(300)), draw(point(300))
+            elif where == 2:
+                # a stop line a hair's breadth before the lanelet end (not exactly on it)
+                e = draw(st.sampled_from([1e-7, 1e-6, 3e-5, 1e-3]))
+                sl["start"] = [sl["start"][0] + e, sl["start"][1] - e]
+                sl["end"] = [sl["end"][0] - e, sl["end"][1] + e]
             l["stop_line"] = sl
     if len(lids) >= 2:
         for _ in range(draw(st.integers(0, 2))):
